@@ -271,7 +271,9 @@ EUIS = [0x0011223344556677, 0xdeadbeeffffe0001]
 BADM = ["dead.beef", "foo", "de:ad:be:ef:00", "de:ad:be:ef:00:01:02", "dead.beef.000g", "deadbeef000", "00:11:22:33:44:5", "dead-beef-0001", "", "mac", "address",
         "de:ad:be:ef-00-01", "0011.2233.4455.66", "dead.beef.0001.", "10.1.1.1"]
 REGEXES = [None, None, ".", "dead", "^dead.beef", "0001,0004", "de:ad", "de-ad", "DEAD", "6677$", "^00", "ff-ff", "nomatch", "beef.0001$", "^dead,^0011", "0001$", "[0-9a-f]{12}$",
-           "^....\\.....\\.....$", "e.e", "^$"]
+           "^....\\.....\\.....$", "e.e", "^$",
+           # one regex per spelling that only that spelling can satisfy, in lower and in upper case (case-insensitivity of each of the four searches)
+           "adbe", "ADBE", "^DEADBEEF", "EF0001$", "DE-AD-BE", "AD:BE", "DEAD\\.BEEF", "dead\\.beef", "2233", "FFFFFFFFFFFF", "FF:FF", "FFFF\\.FFFF", "9C0001$", "56-9C"]
 
 
 def gen_mac(rng, tier, escalate):
